@@ -154,9 +154,15 @@ def run(tier, seed):
     reqs, meta = [], []
     gq, gm = [], []
     for c in login:
+        toks = c["tokens"]
+        nenum = max([int(toks[i + 3]) for i in range(len(toks) - 3) if toks[i] == "enum" and toks[i + 3].isdigit()] + [0])
         for k in range(per):
             # first samples are branch-directed (every enumerator / single flag mask steering an `if`), the rest random
             gq.append(f"gen {c['key']} {rng.below(1 << 40)} {1 + rng.below(4)} {k if k < per - 2 else 1000000}")
+            gm.append((c, "gen"))
+        for k in range(min(nenum, 64)):
+            # enumerator sweep: sample k gives every enum field its k-th declared enumerator
+            gq.append(f"gen {c['key']} {rng.below(1 << 40)} 2 {500000 + k}")
             gm.append((c, "gen"))
         for site in range(3):
             gq.append(f"genbad {c['key']} {rng.below(1 << 40)} {site} {rng.below(3)}")
